@@ -483,20 +483,39 @@ Lemma sprog_ind' (P : sprog -> Prop)
   (HS : forall p q, P p -> P q -> P (SSeq p q))
   (HP : forall ps, Forall P ps -> P (SPar ps))
   (HB : forall id c alts, Forall P alts -> P (SBranch id c alts))
-  (HU : forall w p, P p -> P (SSub w p)) : forall p, P p.
+  (HU : forall w p, P p -> P (SSub w p))
+  (HM : forall f, P (SMap f))
+  (HC : forall m, P (SCheck m))
+  (HL : forall id c body fuel, P body -> P (SLoop id c body fuel)) : forall p, P p.
 Proof.
-  fix IH 1. intros [w id sp|p q|ps|id c alts|w p].
+  fix IH 1. intros [w id sp|p q|ps|id c alts|w p|f|m|id c body fuel].
   - apply HN.
   - apply HS; apply IH.
   - apply HP. induction ps; constructor; auto.
   - apply HB. induction alts; constructor; auto.
   - apply HU, IH.
+  - apply HM.
+  - apply HC.
+  - apply HL, IH.
+Qed.
+
+Theorem spec_loop_cond_ok c : cond_ok (loop_cond_of_spec c).
+Proof.
+  split.
+  - unfold has_any, has, loop_cond_of_spec. cbn [nI nS nC nT]. destruct (ls_collect c); reflexivity.
+  - exists (loop_choice c). constructor.
+    + intros i Ei x. unfold loop_cond_of_spec in Ei. cbn [nI] in Ei. destruct (ls_collect c); [discriminate|].
+      inversion Ei. apply agree_refl.
+    + intros s Es. discriminate.
+    + intros f Ef st _. unfold loop_cond_of_spec in Ef. cbn [nC] in Ef. destruct (ls_collect c); [|discriminate].
+      inversion Ef. apply agree_refl.
+    + intros t Et. discriminate.
 Qed.
 
 (* every graph the harness can build satisfies the hypotheses of the graph-level theorems *)
 Theorem compile_ok : forall p, sprog_wf p = true -> prog_ok (compile_sprog p).
 Proof.
-  induction p as [w id sp|p q IHp IHq|ps IH|id c alts IH|w p IHp] using sprog_ind';
+  induction p as [w id sp|p q IHp IHq|ps IH|id c alts IH|w p IHp|f|m|id c body fuel IHb] using sprog_ind';
     cbn [sprog_wf compile_sprog prog_ok]; intros H.
   - apply andb_prop in H as (Hw & Hs). split; [apply compile_wrap_ok, Hw|apply spec_node_ok, Hs].
   - apply andb_prop in H as (H1 & H2). split; auto.
@@ -508,6 +527,9 @@ Proof.
     apply all_forall. rewrite forallb_forall in H. rewrite Forall_forall in *.
     intros q Hq. apply in_map_iff in Hq as (p0 & <- & Hp0). apply IH; auto.
   - apply andb_prop in H as (Hw & Hp). split; [apply compile_wrap_ok, Hw|auto].
+  - exact H.
+  - exact I.
+  - split; [apply spec_loop_cond_ok|auto].
 Qed.
 
 (* the four paradigms on the graphs of the harness: only decidable hypotheses are left, and
@@ -559,4 +581,49 @@ Lemma mixed_prog_in_domain :
      = Ok (VM [(2%N, "n6<n3{aa=n1(abc);ab=n2(abc);}"%string); (3%N, "n3{aa=n1(abc);ab=n2(abc);}>"%string)])
   /\ vsconcatR (g_transform seq_mrg (compile_sprog mixed_prog) (map Val [VS "ab"%string; VS "c"%string]))
      = g_invoke (compile_sprog mixed_prog) (VS "abc"%string).
+Proof. vm_compute. repeat split. Qed.
+
+(* F-C04c *)
+Lemma fieldmap_missing_refuted_lem :
+  sprog_wf fmiss_prog = true
+  /\ dom_ok (compile_sprog fmiss_prog) (VS "x"%string) = false
+  /\ g_invoke (compile_sprog fmiss_prog) (VS "x"%string) = Err e_nokey
+  /\ vsconcatR (g_stream seq_mrg (compile_sprog fmiss_prog) (VS "x"%string)) = Ok (VS "n2()"%string)
+  /\ ~ agree (vsconcatR (g_stream seq_mrg (compile_sprog fmiss_prog) (VS "x"%string)))
+             (g_invoke (compile_sprog fmiss_prog) (VS "x"%string)).
+Proof. vm_compute. repeat split; auto. Qed.
+
+Lemma wf_prog_in_domain :
+  sprog_wf wf_prog = true
+  /\ dom_ok (compile_sprog wf_prog) (VS "abc"%string) = true
+  /\ g_invoke (compile_sprog wf_prog) (VS "abc"%string) = Ok (VS "n3{af=abc>;ag=n1<abc;ah=n2(abc);}"%string)
+  /\ vsconcatR (g_transform seq_mrg (compile_sprog wf_prog) (map Val [VS "ab"%string; VS "c"%string]))
+     = g_invoke (compile_sprog wf_prog) (VS "abc"%string).
+Proof. vm_compute. repeat split. Qed.
+
+(* F-C04d (fixed by c44e450): with the old concatenation at the interface type, the Invoke
+   view of a Stream-native node with output type any fails as soon as the node emits two
+   chunks, while in stream mode the edge's run-time check retypes the chunks and the
+   consumer concatenates them at the string type *)
+Definition any_spec : nspec := spec_simple 0 "n1" 0 0 false true false false 1 false.
+
+Lemma any_stream_output_v0_refuted_lem :
+  spec_wf any_spec = true
+  /\ view_I vconcat_any_v0 (node_of_spec any_spec) (VS "ab"%string) = Err e_type
+  /\ view_I vconcat (node_of_spec any_spec) (VS "ab"%string) = Ok (VS "n1(ab)"%string)
+  /\ exists o, view_T vconcat (node_of_spec any_spec) (box (VS "ab"%string)) = Ok o
+       /\ List.length o = 2%nat
+       /\ vsconcat (s_check false o) = Ok (VS "n1(ab)"%string).
+Proof.
+  split; [reflexivity|]. split; [reflexivity|]. split; [reflexivity|].
+  eexists. split; [vm_compute; reflexivity|]. split; reflexivity.
+Qed.
+
+(* non-vacuity with a cycle: three rounds, then on *)
+Lemma loop_prog_in_domain :
+  sprog_wf loop_prog = true
+  /\ dom_ok (compile_sprog loop_prog) (VS "ab"%string) = true
+  /\ g_invoke (compile_sprog loop_prog) (VS "ab"%string) = Ok (VS "n3(n2(n1(n2(n1(n2(n1(ab)))))))"%string)
+  /\ vsconcatR (g_transform seq_mrg (compile_sprog loop_prog) (map Val [VS "a"%string; VS "b"%string]))
+     = g_invoke (compile_sprog loop_prog) (VS "ab"%string).
 Proof. vm_compute. repeat split. Qed.
